@@ -1673,9 +1673,9 @@ def cases(tier, seed, flavour):
                 for tA in 'NTC':
                     for tB in 'NTC':
                         g = {'p': 'gemm', 'm': m, 'n': n, 'k': k, 'tc': tc, 'combo': list(combo), 'tA': tA, 'tB': tB, 'npat': npat}
-                        if san and tc == 'd' and combo == (1, 1, 1) and tA == 'C' and k != m:
-                            # partial=True reads outside A on the unchanged tree (one sanitizer report per call):
-                            # on the asan flavour only the single-operation case above exercises it
+                        if tc == 'd' and combo == (1, 1, 1) and tA == 'C' and k != m:
+                            # partial=True reads outside the accumulator on the unchanged tree (undefined behaviour,
+                            # can kill the interpreter): only the single-operation case above exercises it
                             g['partials'] = [False]
                         yield g
     for (n, k) in ((2, 3), (3, 2), (1, 2), (3, 1), (2, 0), (0, 2)):
@@ -1833,7 +1833,18 @@ def _run_risky(c, case, seed):
     elif op == 'syrkz':
         ev_syrk(c, 2, 3, 'z', tuple(case['combo']), 'L', 'N', seed, 'quick', 2)
     elif op == 'syrk-k0':
-        ev_syrk(c, 2, 0, 'd', (0, 1), 'L', 'T', seed, 'quick', 2)
-        ev_syrk(c, 2, 0, 'd', (0, 1), 'U', 'N', seed, 'quick', 2)
+        # BLAS' xerbla prints "On entry to DSYRK parameter number 7 had an illegal value" on the unchanged tree:
+        # keep the runner's output clean
+        import sys
+        sys.stdout.flush(); sys.stderr.flush()
+        saved = os.dup(1), os.dup(2)
+        null = os.open(os.devnull, os.O_WRONLY)
+        os.dup2(null, 1); os.dup2(null, 2)
+        try:
+            ev_syrk(c, 2, 0, 'd', (0, 1), 'L', 'T', seed, 'quick', 2)
+            ev_syrk(c, 2, 0, 'd', (0, 1), 'U', 'N', seed, 'quick', 2)
+        finally:
+            os.dup2(saved[0], 1); os.dup2(saved[1], 2)
+            os.close(null); os.close(saved[0]); os.close(saved[1])
     else:
         raise AssertionError(op)
